@@ -14,6 +14,7 @@ TYPES = ["ThreadKey", "Mutex", "MutexGuard", "MutexRef", "RwLock", "RwLockReadGu
 TRAITS = ["Clone", "Copy", "Default", "Deref", "DerefMut", "AsRef", "AsMut", "IntoIterator", "Drop", "Borrow", "BorrowMut",
           "Index", "IndexMut", "Extend", "LockableGetMut", "FromIterator"]
 GUARDS = ["MutexGuard", "RwLockReadGuard", "RwLockWriteGuard", "LockGuard", "PoisonGuard"]
+REFS = ["MutexRef", "RwLockReadRef", "RwLockWriteRef", "PoisonRef"]
 ENTRY = ["raw", "new_unchecked", "guard", "data_mut", "data_ref", "read_guard", "raw_write", "raw_try_write",
          "raw_unlock_write", "raw_read", "raw_try_read", "raw_unlock_read", "try_lock_no_key", "try_read_no_key"]
 ACQUIRE = ["lock", "try_lock", "read", "try_read", "write", "try_write", "scoped_lock", "scoped_try_lock",
@@ -53,6 +54,30 @@ def mentions_lifetime(t, lt):
         return any(mentions_lifetime(v, lt) for v in t.values())
     if isinstance(t, list):
         return any(mentions_lifetime(v, lt) for v in t)
+    return False
+
+
+def mentions_assoc(t, names):
+    """does the type mention an associated type (`<X as Trait>::Name`, `L::Name`) with one of the given names"""
+    if isinstance(t, dict):
+        qp = t.get("qualified_path")
+        if isinstance(qp, dict) and qp.get("name") in names:
+            return True
+        return any(mentions_assoc(v, names) for v in t.values())
+    if isinstance(t, list):
+        return any(mentions_assoc(v, names) for v in t)
+    return False
+
+
+def mentions_ref_to_generic(t, g):
+    """a reference (shared or exclusive) whose referent mentions the generic parameter g"""
+    if isinstance(t, dict):
+        br = t.get("borrowed_ref")
+        if isinstance(br, dict) and mentions_generic(br.get("type"), g):
+            return True
+        return any(mentions_ref_to_generic(v, g) for v in t.values())
+    if isinstance(t, list):
+        return any(mentions_ref_to_generic(v, g) for v in t)
     return False
 
 
@@ -243,12 +268,14 @@ def fn_row(owner, fitem, im, trait=None, trait_public=True):
     sig = f["sig"]
     self_lt = None
     mut_self = False
+    shared_self = False
     key_val = keyable_val = guard_val = False
     closure_escapes = False
     for pname, pty in sig["inputs"]:
         if pname == "self" and isinstance(pty, dict) and "borrowed_ref" in pty:
             self_lt = pty["borrowed_ref"].get("lifetime")
             mut_self = bool(pty["borrowed_ref"].get("is_mutable"))
+            shared_self = not mut_self
     generic_keyable = set()
     for p in f["generics"]["params"]:
         kd = p["kind"]
@@ -280,7 +307,12 @@ def fn_row(owner, fitem, im, trait=None, trait_public=True):
                 keyable_val=keyable_val, guard_val=guard_val, returns_key=mentions(out, "ThreadKey") or
                 (isinstance(out, dict) and any(mentions_generic(out, g) for g in generic_keyable)),
                 returns_guard=any(mentions(out, g) for g in GUARDS), closure_escapes=closure_escapes,
-                returns_shared_child=returns_shared_child, mut_self=mut_self, trait=trait or "")
+                returns_shared_child=returns_shared_child, mut_self=mut_self,
+                # through `&self`: a reference to the payload, a guard, or the guard / data structure of a Lockable
+                shared_self_returns_data=shared_self and ((owner in ("Mutex", "RwLock") and mentions_ref_to_generic(out, "T")) or
+                                                          any(mentions(out, g) for g in GUARDS + REFS) or
+                                                          mentions_assoc(out, ("Guard", "DataMut", "ReadGuard", "DataRef"))),
+                trait=trait or "")
 
 
 def mentions_generic(t, g):
@@ -305,7 +337,7 @@ def render(rules, timpls, fns, key_public_field, nonkey_public_fields, keyable_i
          "Record autorule := mkrule { r_ty : string; r_marker : marker; r_negative : bool; r_synthetic : bool; r_bounds : list bound }.",
          "Record fnrow := mkfn { fn_owner : string; fn_name : string; fn_trait : string; fn_public : bool; fn_unsafe : bool;",
          "  fn_key_val : bool; fn_keyable_val : bool; fn_guard_val : bool; fn_returns_key : bool; fn_returns_guard : bool;",
-         "  fn_closure_escapes : bool; fn_returns_shared_child : bool; fn_mut_self : bool }.", ""]
+         "  fn_closure_escapes : bool; fn_returns_shared_child : bool; fn_mut_self : bool; fn_shared_self_returns_data : bool }.", ""]
     o.append("Definition auto_rules : list autorule := [")
     rl = []
     for name, tr, neg, syn, bs in sorted(rules):
@@ -326,7 +358,7 @@ def render(rules, timpls, fns, key_public_field, nonkey_public_fields, keyable_i
         seen.add(key)
         fl.append(f'  mkfn "{f["owner"]}" "{f["name"]}" "{f["trait"]}" {cb(f["public"])} {cb(f["unsafe"])} {cb(f["key_val"])} '
                   f'{cb(f["keyable_val"])} {cb(f["guard_val"])} {cb(f["returns_key"])} {cb(f["returns_guard"])} '
-                  f'{cb(f["closure_escapes"])} {cb(f["returns_shared_child"])} {cb(f["mut_self"])}')
+                  f'{cb(f["closure_escapes"])} {cb(f["returns_shared_child"])} {cb(f["mut_self"])} {cb(f["shared_self_returns_data"])}')
     o.append(";\n".join(fl))
     o.append("].\n")
     o.append(f"Definition key_has_public_field : bool := {cb(key_public_field)}.")
